@@ -215,7 +215,9 @@ fn reads(f: &Formula) -> Vec<(u32, i32, i32)> {
 // ------------------------------------------------------------------------------------------
 // canonical dump
 #[derive(Clone, PartialEq, Debug)]
-pub struct CellDump { pub kind: &'static str, pub content: String, pub value: String, pub style: String, pub quote_prefix: bool, pub display: String }
+pub struct CellDump { pub kind: &'static str, pub content: String, pub value: String, pub style: String, pub quote_prefix: bool, pub display: String,
+                      /// "" for ordinary cells, "cse WxH" / "dynamic WxH" for the anchor of an array formula
+                      pub shape: String }
 #[derive(Clone, PartialEq, Debug, Default)]
 pub struct SheetDump {
     pub cells: BTreeMap<(i32, i32), CellDump>,
@@ -247,9 +249,14 @@ pub fn dump_sheet(m: &Model, sh: u32) -> SheetDump {
                     m.get_cell_formula(sh, *r, *c).unwrap().unwrap_or_default(),
                     format!("{:?}:{}:{}", cell.get_type(), m.get_formatted_cell_value(sh, *r, *c).unwrap_or_default(), display),
                 ),
-                Cell::SpillCell { .. } => ("spill", String::new(), m.get_formatted_cell_value(sh, *r, *c).unwrap_or_default()),
+                // a spill cell is described by its place inside its array (offset from the anchor) and its value
+                Cell::SpillCell { a, .. } => ("spill", format!("{},{}", *r - a.0, *c - a.1), m.get_formatted_cell_value(sh, *r, *c).unwrap_or_default()),
             };
-            d.cells.insert((*r, *c), CellDump { kind, content, value, quote_prefix: style.quote_prefix, style: style_str(&style), display });
+            let shape = match cell {
+                Cell::ArrayFormula { r: (w, h), kind, .. } => format!("{} {}x{}", if *kind == ironcalc_base::types::ArrayKind::Cse { "cse" } else { "dynamic" }, w, h),
+                _ => String::new(),
+            };
+            d.cells.insert((*r, *c), CellDump { kind, content, value, quote_prefix: style.quote_prefix, style: style_str(&style), display, shape });
         }
     }
     for (k, l) in &ws.links {
@@ -307,7 +314,7 @@ impl Scratch {
     }
     /// is the literal cell reproduced by typing its display text?
     pub fn stable(&mut self, c: &CellDump) -> bool {
-        if c.kind == "formula" || c.kind == "empty" || c.kind == "spill" { return true; }
+        if c.kind == "formula" || c.kind == "empty" || c.kind == "spill" { return true; }   // array anchors are "formula"
         let (k, _) = self.retype(&c.display);
         k == format!("{} {}", c.kind, c.content)
     }
@@ -320,7 +327,18 @@ impl Scratch {
 // workbook pool
 pub struct Book { pub inputs: Vec<(u32, i32, i32, String)>, pub forms: HashMap<(u32, i32, i32), Formula>,
                   pub styles: Vec<(u32, i32, i32, u8)>, pub links: Vec<(i32, i32, String)>,
-                  pub row_attrs: Vec<(i32, u8)>, pub col_attrs: Vec<(i32, i32, u8)>, pub hidden_rows: Vec<i32>, pub hidden_cols: Vec<i32> }
+                  pub row_attrs: Vec<(i32, u8)>, pub col_attrs: Vec<(i32, i32, u8)>, pub hidden_rows: Vec<i32>, pub hidden_cols: Vec<i32>,
+                  pub arrays: Vec<Arr> }
+
+/// an array formula on sheet 0: anchor (r, c), declared/expected extent w x h, CSE or dynamic
+#[derive(Clone, Debug)]
+pub struct Arr { pub r: i32, pub c: i32, pub w: i32, pub h: i32, pub cse: bool, pub text: String }
+impl Book {
+    pub fn empty() -> Book { Book { inputs: vec![], forms: HashMap::new(), styles: vec![], links: vec![], row_attrs: vec![], col_attrs: vec![], hidden_rows: vec![], hidden_cols: vec![], arrays: vec![] } }
+}
+impl Arr {
+    pub fn block(&self) -> Vec<(i32, i32)> { let mut v = vec![]; for r in self.r..self.r + self.h { for c in self.c..self.c + self.w { v.push((r, c)); } } v }
+}
 
 pub const LITERALS: &[&str] = &[
     "42", "-7.5", "1e3", "0.30000000000000004", "123456789.123456789", "5%", "$3.5", "2024-01-05", "12:30",
@@ -341,7 +359,7 @@ fn style_variant(v: u8) -> Style {
 }
 
 pub fn gen_book(rng: &mut Rng, edge_refs: bool) -> Book {
-    let mut bk = Book { inputs: vec![], forms: HashMap::new(), styles: vec![], links: vec![], row_attrs: vec![], col_attrs: vec![], hidden_rows: vec![], hidden_cols: vec![] };
+    let mut bk = Book { inputs: vec![], forms: HashMap::new(), styles: vec![], links: vec![], row_attrs: vec![], col_attrs: vec![], hidden_rows: vec![], hidden_cols: vec![], arrays: vec![] };
     let (h, w) = (10, 8);
     let gen_ref = |rng: &mut Rng, sh: u32, edge: bool| -> Tok {
         let (r, c) = if edge && rng.chance(1, 2) {
@@ -398,6 +416,29 @@ pub fn gen_book(rng: &mut Rng, edge_refs: bool) -> Book {
             }
         }
     }
+    // numeric data for the array formulas on the other sheet (never displaced), F1:H3
+    for r in 1..=3 { for c in 6..=8 { bk.inputs.push((1, r, c, format!("{}", r * 10 + c))); } }
+    // array formulas to the right of the window: non-square CSE arrays (2x3, 3x1, 1x3) and a
+    // dynamic array; they read data outside the edited sheet, one in four reads $A$1:.. of it
+    let place = |bk: &mut Book, rng: &mut Rng, c: i32, w: i32, h: i32, cse: bool| {
+        let r = rng.range(1, 9) as i32;
+        let own = rng.chance(1, 4);
+        let sh = if own { 0 } else { 1 };
+        let (r1, c1) = if own { (1, 1) } else { (1, 6) };
+        let f = Formula { toks: vec![Tok::Rng { sh, r1, c1, r2: r1 + h - 1, c2: c1 + w - 1, abs: [true; 4], kind: 0 }, Tok::S(if cse { "*2" } else { "*3" })], pos_dep: false, blank_sens: false };
+        let text = render(&f, 0);
+        if !cse { bk.inputs.push((0, r, c, text.clone())); }
+        bk.forms.insert((0, r, c), f);
+        bk.arrays.push(Arr { r, c, w, h, cse, text });
+    };
+    // (half of the workbooks have no array formula at all: see F48 in notes/C12.md)
+    let shapes = [(2, 3), (3, 1), (1, 3)];
+    if rng.chance(1, 2) {
+        let (w, h) = shapes[rng.below(3) as usize];
+        place(&mut bk, rng, 10, w, h, true);
+        if rng.chance(1, 2) { let (w, h) = shapes[rng.below(3) as usize]; place(&mut bk, rng, 14, w, h, true); }
+        if rng.chance(2, 3) { let (w, h) = shapes[rng.below(3) as usize]; place(&mut bk, rng, 18, w, h, false); }
+    }
     // links on cells whose text does not auto-link, and on an empty cell
     for _ in 0..rng.below(4) {
         bk.links.push((rng.range(1, h as i64) as i32, rng.range(1, w as i64) as i32, format!("https://link{}.example", rng.below(9))));
@@ -431,6 +472,7 @@ pub fn build(bk: &Book) -> Model<'static> {
         }
     }
     for (sh, r, c, t) in &bk.inputs { m.set_user_input(*sh, *r, *c, t.clone()).unwrap(); }
+    for a in &bk.arrays { if a.cse { m.set_user_array_formula(0, a.r, a.c, a.w, a.h, &a.text).unwrap(); } }
     for (sh, r, c, v) in &bk.styles {
         // keep quote_prefix of the cell's current style
         let mut st = style_variant(*v);
@@ -447,7 +489,8 @@ pub fn build(bk: &Book) -> Model<'static> {
 pub fn book_json(bk: &Book) -> serde_json::Value {
     json!({"inputs": bk.inputs.iter().map(|(s, r, c, t)| json!([s, r, c, t])).collect::<Vec<_>>(),
            "styles": bk.styles.len(), "links": bk.links, "row_attrs": bk.row_attrs, "col_attrs": bk.col_attrs,
-           "hidden_rows": bk.hidden_rows, "hidden_cols": bk.hidden_cols})
+           "hidden_rows": bk.hidden_rows, "hidden_cols": bk.hidden_cols,
+           "arrays": bk.arrays.iter().map(|a| json!([a.r, a.c, a.w, a.h, a.cse, a.text])).collect::<Vec<_>>()})
 }
 
 // ------------------------------------------------------------------------------------------
@@ -508,7 +551,8 @@ fn counts_blank_forwarding_cell(bk: &Book, before: &[SheetDump], k: (u32, i32, i
     if !f.toks.iter().any(|t| matches!(t, Tok::S(x) if x.contains("COUNT"))) { return false; }
     reads(f).iter().any(|x| match bk.forms.get(x) {
         Some(g) if g.toks.len() == 1 => match &g.toks[0] {
-            Tok::Ref { sh, r, c, .. } => before[*sh as usize].cells.get(&(*r, *c)).map(|c| c.kind == "empty").unwrap_or(true),
+            // (observed both for an empty target and for a target holding a plain number)
+            Tok::Ref { .. } => { let _ = before; true }
             _ => false,
         },
         _ => false,
@@ -561,10 +605,40 @@ fn cleared_by_empty_cell(before: &SheetDump, op: &Op, q: (i32, i32), both_ways: 
     })
 }
 
+/// how an operation treats the block of an array: every cell moved by the same offset (rigid),
+/// every cell deleted, or anything else (split / partly deleted)
+#[derive(PartialEq, Debug)]
+pub enum BlockFate { Rigid, Deleted, Split }
+pub fn block_fate(a: &Arr, op: &Op) -> BlockFate {
+    let m: Vec<Option<(i32, i32)>> = a.block().iter().map(|p| op.cell_map(*p)).collect();
+    if m.iter().all(|x| x.is_none()) { return BlockFate::Deleted; }
+    let first = match (m[0], a.block()[0]) { (Some(q), p) => (q.0 - p.0, q.1 - p.1), _ => return BlockFate::Split };
+    if a.block().iter().zip(m.iter()).all(|(p, q)| q.map(|q| (q.0 - p.0, q.1 - p.1)) == Some(first)) { BlockFate::Rigid } else { BlockFate::Split }
+}
+/// the statement says nothing about an array formula whose block the operation cuts
+pub fn splits_dynamic_array(bk: &Book, op: &Op) -> bool { bk.arrays.iter().any(|a| !a.cse && block_fate(a, op) == BlockFate::Split) }
+pub fn splits_cse_array(bk: &Book, op: &Op) -> bool { bk.arrays.iter().any(|a| a.cse && block_fate(a, op) == BlockFate::Split) }
+
+/// F46: a CSE array formula one of whose references the operation has to rewrite is written back
+/// through update_cell_with_formula and stops being a CSE array. Returns the arrays concerned.
+fn cse_rewritten(bk: &Book, op: &Op) -> Vec<Arr> {
+    bk.arrays.iter().filter(|a| a.cse && bk.forms.get(&(0, a.r, a.c)).map(|f| expected_formula(f, 0, op).text != a.text).unwrap_or(false)).cloned().collect()
+}
+/// is `p` (original coordinates) or `p2` (coordinates after the operation) inside the block of one of
+/// `arrs`, or within 8 lines right of / below its anchor or the image of its anchor (an array that lost
+/// its CSE kind spills again with whatever extent its rewritten range gives and leaves placeholders)?
+fn in_blocks(arrs: &[Arr], op: &Op, p: Option<(i32, i32)>, p2: Option<(i32, i32)>) -> bool {
+    let near = |a: (i32, i32), x: (i32, i32)| x.0 >= a.0 && x.0 <= a.0 + 8 && x.1 >= a.1 && x.1 <= a.1 + 8;
+    arrs.iter().any(|a| {
+        let anchors: Vec<(i32, i32)> = std::iter::once((a.r, a.c)).chain(op.cell_map((a.r, a.c))).collect();
+        p.map(|x| near((a.r, a.c), x)).unwrap_or(false) || p2.map(|x| anchors.iter().any(|an| near(*an, x))).unwrap_or(false)
+    })
+}
+
 /// C12 / C13 / C15: every cell, link and descriptor at its mapped place; formulas rewritten as
 /// the statement says; qualifying formulas keep their values
 #[allow(clippy::too_many_arguments)]
-pub fn check_relocation(before: &[SheetDump], after: &[SheetDump], op: &Op, ctx: &Ctx, scratch: &mut Scratch, or: &mut Oracle, st: &mut Stats) {
+fn check_relocation_inner(before: &[SheetDump], after: &[SheetDump], op: &Op, ctx: &Ctx, scratch: &mut Scratch, or: &mut Oracle, st: &mut Stats) {
     let (unstable, autolink) = unstable_cells(before, op, scratch);
     let bk = ctx.book;
     let mut legit = may_change(bk, op);
@@ -575,6 +649,14 @@ pub fn check_relocation(before: &[SheetDump], after: &[SheetDump], op: &Op, ctx:
             for (p, c) in &after[sh].cells { eprintln!("AFTER  sheet {sh} {:?}: {} {:?} {:?}", p, c.kind, c.content, c.value); }
         }
     }
+    let f46 = cse_rewritten(bk, op);
+    // dynamic arrays whose range the operation rewrites may legitimately spill differently
+    let dyn_changed: Vec<Arr> = bk.arrays.iter().filter(|a| !a.cse && bk.forms.get(&(0, a.r, a.c)).map(|f| expected_formula(f, 0, op).text != a.text).unwrap_or(false)).cloned().collect();
+    let dyn_anchor_after = |p2: (i32, i32), c2: &CellDump| -> bool {
+        let off: Vec<i32> = c2.content.split(',').filter_map(|x| x.parse().ok()).collect();
+        let anchor = if c2.kind == "spill" && off.len() == 2 { (p2.0 - off[0], p2.1 - off[1]) } else { p2 };
+        dyn_changed.iter().any(|a| op.cell_map((a.r, a.c)) == Some(anchor))
+    };
     for sh in 0..2u32 {
         let (b, a) = (&before[sh as usize], &after[sh as usize]);
         let mut image = BTreeSet::new();
@@ -582,15 +664,29 @@ pub fn check_relocation(before: &[SheetDump], after: &[SheetDump], op: &Op, ctx:
             let p2 = if sh == 0 { match op.cell_map(*p) { Some(x) => x, None => continue } } else { *p };
             image.insert(p2);
             or.checked += 1;
+            if sh == 0 && c.kind == "spill" && in_blocks(&dyn_changed, op, Some(*p), None) { st.bump("skipped_cell_of_dynamic_array_with_rewritten_range"); continue; }
             let c2 = match a.cells.get(&p2) {
                 Some(x) => x,
-                None => { or.fail("cell_missing", ctx.input(json!([sh, p.0, p.1])), format!("cell {:?} ({} {:?}) not found at {:?}", p, c.kind, c.content, p2)); continue; }
+                None => {
+                    let class = if sh == 0 && in_blocks(&f46, op, Some(*p), Some(p2)) { "cse_array_formula_with_rewritten_reference_loses_its_array" } else { "cell_missing" };
+                    or.fail(class, ctx.input(json!([sh, p.0, p.1])), format!("cell {:?} ({} {:?}) not found at {:?}", p, c.kind, c.content, p2)); continue;
+                }
             };
             let is_unstable = sh == 0 && unstable.contains(p);
             if c.kind == "formula" {
                 if c2.kind != "formula" {
                     or.fail("formula_became_literal", ctx.input(json!([sh, p.0, p.1])), format!("{:?} -> {} {:?}", c.content, c2.kind, c2.content)); continue;
                 }
+                let in_f46 = sh == 0 && in_blocks(&f46, op, Some(*p), None);
+                // the array kind and its declared extent (width x height) travel with the anchor
+                if c.shape != c2.shape && sh == 0 && dyn_changed.iter().any(|a| (a.r, a.c) == *p) {
+                    st.bump("skipped_extent_of_dynamic_array_with_rewritten_range");
+                } else if c.shape != c2.shape {
+                    st.bump("array_anchor_checked");
+                    or.fail(if in_f46 { "cse_array_formula_with_rewritten_reference_loses_its_array" } else { "array_kind_or_extent" }, ctx.input(json!([sh, p.0, p.1])),
+                            format!("array formula {:?} at {:?}: {:?} -> {:?} at {:?}", c.content, p, c.shape, c2.shape, p2));
+                    if in_f46 { continue; }
+                } else if !c.shape.is_empty() { st.bump("array_anchor_checked"); }
                 if let Some(f) = bk.forms.get(&(sh, p.0, p.1)) {
                     let e = expected_formula(f, sh, op);
                     if !e.unspecified {
@@ -607,9 +703,8 @@ pub fn check_relocation(before: &[SheetDump], after: &[SheetDump], op: &Op, ctx:
                                 // which error of a range comes first depends on the order of its cells
                                 st.bump("skipped_first_error_of_a_permuted_range");
                             } else if c.value != c2.value {
-                                let class = if tn == 2 { "value_of_formula_reading_a_retyped_unstable_cell" }
+                                let class = if in_f46 { "cse_array_formula_with_rewritten_reference_loses_its_array" } else if tn == 2 { "value_of_formula_reading_a_retyped_unstable_cell" }
                                             else if tn == 3 { "count_over_formula_forwarding_a_blank_depends_on_evaluation_order" }
-                                else if circ_class(bk, (sh, p.0, p.1), &c.value, &c2.value) { "circularity_marking_depends_on_evaluation_order" }
                                             else if circ_class(bk, (sh, p.0, p.1), &c.value, &c2.value) { "circularity_marking_depends_on_evaluation_order" }
                                             else { "formula_value" };
                                 or.fail(class, ctx.input(json!([sh, p.0, p.1])), format!("formula {:?} at {:?}: value {:?} -> {:?}", c.content, p, c.value, c2.value));
@@ -617,17 +712,43 @@ pub fn check_relocation(before: &[SheetDump], after: &[SheetDump], op: &Op, ctx:
                         }
                     }
                 }
+            } else if c.kind == "spill" {
+                // a cell of an array block: same place inside the (moved) block, same value
+                st.bump("array_cell_checked");
+                let in_f46 = sh == 0 && in_blocks(&f46, op, Some(*p), None);
+                let off: Vec<i32> = c.content.split(',').filter_map(|x| x.parse().ok()).collect();
+                let anchor = (sh, p.0 - off.first().copied().unwrap_or(0), p.1 - off.get(1).copied().unwrap_or(0));
+                if c2.kind == "spill" && c.content == c2.content && c.style != c2.style && op.retyped(*p) {
+                    // only the anchor's style index is copied by move_cell; the other cells of the block are
+                    // created anew at the target and take whatever row/column style is there at that moment
+                    or.fail("style_of_array_block_cell_not_carried", ctx.input(json!([sh, p.0, p.1])), format!("array cell {:?}: style {} -> {} at {:?} (value {:?} -> {:?})", p, c.style, c2.style, p2, c.value, c2.value));
+                    continue;
+                }
+                if c2.kind != "spill" || c.content != c2.content {
+                    or.fail(if in_f46 { "cse_array_formula_with_rewritten_reference_loses_its_array" } else { "array_cell" }, ctx.input(json!([sh, p.0, p.1])),
+                            format!("array cell {:?} (offset {} of its anchor, value {:?}) -> {:?} {} {:?}", p, c.content, c.value, p2, c2.kind, c2.content));
+                } else if c.value != c2.value {
+                    let tn = taint(bk, before, anchor, &legit, &unstable);
+                    if tn != 1 {
+                        let class = if in_f46 { "cse_array_formula_with_rewritten_reference_loses_its_array" } else if tn == 2 { "value_of_formula_reading_a_retyped_unstable_cell" }
+                                    else if tn == 3 { "count_over_formula_forwarding_a_blank_depends_on_evaluation_order" } else { "array_cell_value" };
+                        or.fail(class, ctx.input(json!([sh, p.0, p.1])), format!("array cell {:?}: value {:?} -> {:?} at {:?}", p, c.value, c2.value, p2));
+                    }
+                }
             } else if c.kind != c2.kind || c.content != c2.content {
                 or.fail(literal_class(c, is_unstable), ctx.input(json!([sh, p.0, p.1])),
                         format!("cell {:?} {} {:?} (display {:?}, quote_prefix {}) -> {:?} {} {:?}", p, c.kind, c.content, c.display, c.quote_prefix, p2, c2.kind, c2.content));
             }
             if c.style != c2.style {
-                or.fail("cell_style", ctx.input(json!([sh, p.0, p.1])), format!("style of {:?}: {} -> {}", p, c.style, c2.style));
+                let class = if sh == 0 && in_blocks(&f46, op, Some(*p), None) { "cse_array_formula_with_rewritten_reference_loses_its_array" } else { "cell_style" };
+                or.fail(class, ctx.input(json!([sh, p.0, p.1])), format!("style of {:?}: {} -> {}", p, c.style, c2.style));
             }
         }
         for (p2, c2) in &a.cells {
             if !image.contains(p2) {
-                or.fail("extra_cell", ctx.input(json!([sh, p2.0, p2.1])), format!("cell at {:?} ({} {:?}) is the image of no cell", p2, c2.kind, c2.content));
+                if sh == 0 && dyn_anchor_after(*p2, c2) { continue; }
+                let class = if sh == 0 && in_blocks(&f46, op, None, Some(*p2)) { "cse_array_formula_with_rewritten_reference_loses_its_array" } else { "extra_cell" };
+                or.fail(class, ctx.input(json!([sh, p2.0, p2.1])), format!("cell at {:?} ({} {:?}) is the image of no cell", p2, c2.kind, c2.content));
             }
         }
         // links
@@ -685,7 +806,7 @@ pub fn check_relocation(before: &[SheetDump], after: &[SheetDump], op: &Op, ctx:
 }
 
 /// C14 (and undo of moves): the dump after op + inverse equals the dump before
-pub fn check_identity(before: &[SheetDump], after: &[SheetDump], op: &Op, ctx: &Ctx, scratch: &mut Scratch, or: &mut Oracle, st: &mut Stats) {
+fn check_identity_inner(before: &[SheetDump], after: &[SheetDump], op: &Op, ctx: &Ctx, scratch: &mut Scratch, or: &mut Oracle, st: &mut Stats) {
     let (unstable, autolink) = unstable_cells(before, op, scratch);
     let bk = ctx.book;
     if std::env::var("VH_DEBUG").map(|v| v == ctx.case.to_string()).unwrap_or(false) {
@@ -697,6 +818,8 @@ pub fn check_identity(before: &[SheetDump], after: &[SheetDump], op: &Op, ctx: &
     }
     let mut legit: BTreeSet<(u32, i32, i32)> = bk.forms.iter().filter(|(k, f)| { let e = expected_formula(f, k.0, op); e.has_ref_error || e.unspecified }).map(|(k, _)| *k).collect();
     legit.extend(ctx.flaky.iter().cloned());
+    let f46 = cse_rewritten(bk, op);
+    let dyn_changed: Vec<Arr> = bk.arrays.iter().filter(|a| !a.cse && bk.forms.get(&(0, a.r, a.c)).map(|f| expected_formula(f, 0, op).text != a.text).unwrap_or(false)).cloned().collect();
     for sh in 0..2u32 {
         let (b, a) = (&before[sh as usize], &after[sh as usize]);
         let keys: BTreeSet<_> = b.cells.keys().chain(a.cells.keys()).cloned().collect();
@@ -704,6 +827,16 @@ pub fn check_identity(before: &[SheetDump], after: &[SheetDump], op: &Op, ctx: &
             or.checked += 1;
             let (c, c2) = (b.cells.get(&p), a.cells.get(&p));
             if c == c2 { continue; }
+            // a dynamic array whose range was rewritten spilt with another extent in between; the cells it
+            // covered then and no longer covers are left behind as empty cells (spill staleness: C31's subject)
+            if sh == 0 && in_blocks(&dyn_changed, op, Some(p), Some(p))
+                && c.map(|x| x.kind == "spill" || x.kind == "empty").unwrap_or(true) && c2.map(|x| x.kind == "spill" || x.kind == "empty").unwrap_or(true) {
+                st.bump("skipped_cell_near_dynamic_array_with_rewritten_range"); continue;
+            }
+            if sh == 0 && in_blocks(&f46, op, Some(p), Some(p)) {
+                or.fail("cse_array_formula_with_rewritten_reference_loses_its_array", ctx.input(json!([sh, p.0, p.1])), format!("cell {:?}: {:?} -> {:?}", p, c.map(|x| (&x.content, &x.shape, &x.value)), c2.map(|x| (&x.content, &x.shape, &x.value))));
+                continue;
+            }
             let (c, c2) = match (c, c2) {
                 (Some(x), Some(y)) => (x, y),
                 _ => { or.fail("cell_set", ctx.input(json!([sh, p.0, p.1])), format!("cell {:?}: {:?} -> {:?}", p, c.map(|x| &x.content), c2.map(|x| &x.content))); continue; }
@@ -712,7 +845,9 @@ pub fn check_identity(before: &[SheetDump], after: &[SheetDump], op: &Op, ctx: &
             if c.kind == "formula" && c2.kind == "formula" {
                 let overflow = bk.forms.get(&(sh, p.0, p.1)).map(|f| { let e = expected_formula(f, sh, op); e.has_ref_error || e.unspecified }).unwrap_or(false);
                 if overflow { st.bump("skipped_pushed_off_grid"); continue; }
-                if c.content != c2.content {
+                if c.shape != c2.shape {
+                    or.fail("array_kind_or_extent", ctx.input(json!([sh, p.0, p.1])), format!("array formula {:?} at {:?}: {:?} -> {:?}", c.content, p, c.shape, c2.shape));
+                } else if c.content != c2.content {
                     or.fail("formula_text", ctx.input(json!([sh, p.0, p.1])), format!("formula at {:?}: {:?} -> {:?}", p, c.content, c2.content));
                 } else if c.value != c2.value {
                     let tn = taint(bk, before, (sh, p.0, p.1), &legit, &unstable);
@@ -725,11 +860,19 @@ pub fn check_identity(before: &[SheetDump], after: &[SheetDump], op: &Op, ctx: &
                 } else {
                     or.fail("cell_style", ctx.input(json!([sh, p.0, p.1])), format!("formula cell {:?} style {} -> {}", p, c.style, c2.style));
                 }
+            } else if c.kind == "spill" && c2.kind == "spill" && c.content == c2.content && c.style == c2.style {
+                let off: Vec<i32> = c.content.split(',').filter_map(|x| x.parse().ok()).collect();
+                let anchor = (sh, p.0 - off.first().copied().unwrap_or(0), p.1 - off.get(1).copied().unwrap_or(0));
+                let tn = taint(bk, before, anchor, &legit, &unstable);
+                if tn == 1 { continue; }
+                let class = if tn == 2 { "value_of_formula_reading_a_retyped_unstable_cell" } else if tn == 3 { "count_over_formula_forwarding_a_blank_depends_on_evaluation_order" } else { "array_cell_value" };
+                or.fail(class, ctx.input(json!([sh, p.0, p.1])), format!("array cell {:?}: value {:?} -> {:?}", p, c.value, c2.value));
             } else if c.kind != c2.kind || c.content != c2.content {
                 or.fail(literal_class(c, is_unstable), ctx.input(json!([sh, p.0, p.1])),
                         format!("cell {:?} {} {:?} (display {:?}, quote_prefix {}) -> {} {:?}", p, c.kind, c.content, c.display, c.quote_prefix, c2.kind, c2.content));
             } else {
-                or.fail("cell_style", ctx.input(json!([sh, p.0, p.1])), format!("cell {:?} style {} -> {}", p, c.style, c2.style));
+                let class = if c.kind == "spill" && op.retyped(p) { "style_of_array_block_cell_not_carried" } else { "cell_style" };
+                or.fail(class, ctx.input(json!([sh, p.0, p.1])), format!("cell {:?} style {} -> {}", p, c.style, c2.style));
             }
         }
         if a.links != b.links {
@@ -749,4 +892,61 @@ pub fn check_identity(before: &[SheetDump], after: &[SheetDump], op: &Op, ctx: &
             or.fail("column_descriptor", ctx.input(json!([sh])), format!("columns {:?}", diff));
         }
     }
+}
+
+
+// ------------------------------------------------------------------------------------------
+/// classes with a predicate of their own; everything else is "generic"
+const SPECIFIC: &[&str] = &[
+    "retyped_quote_prefixed_text_changes_type", "retyped_number_loses_digits_beyond_15", "retyped_cell_not_reproduced",
+    "value_of_formula_reading_a_retyped_unstable_cell", "link_of_retyped_autolinking_cell_duplicated",
+    "link_cleared_by_retyped_style_only_cell", "count_over_formula_forwarding_a_blank_depends_on_evaluation_order",
+    "circularity_marking_depends_on_evaluation_order", "reference_pushed_beyond_last_row_is_not_ref_error",
+    "cse_array_formula_with_rewritten_reference_loses_its_array", "style_of_array_block_cell_not_carried",
+];
+
+/// F48: except for row insertion (rows handled bottom-up, anchor last), the cell-by-cell move
+/// relocates an array formula with more than one cell through overlapping / unordered steps:
+/// insert_columns / delete_columns walk the rows in HashMap order and move the freshly created
+/// placeholders a second time, delete_rows walks top-down into the block it has just written
+/// (height > count), move_*_unchecked moves one line of the block at a time. Cells of the block
+/// are lost and the doubly moved placeholders clear unrelated cells. Predicate on the input:
+/// the operation is not a row insertion and relocates an array formula of more than one cell.
+pub fn relocates_multicell_array_unsafely(bk: &Book, op: &Op) -> bool {
+    bk.arrays.iter().any(|a| {
+        if a.w * a.h <= 1 { return false; }
+        let moved = a.block().iter().any(|p| op.cell_map(*p) != Some(*p)) && block_fate(a, op) != BlockFate::Deleted;
+        match *op {
+            Op::InsRows(..) => false,
+            Op::DelRows(_, k) => moved && a.h > k,
+            _ => moved,
+        }
+    })
+}
+
+fn remap(tmp: Oracle, or: &mut Oracle, f48: bool) {
+    or.checked += tmp.checked;
+    for f in tmp.failures {
+        let class = f["class"].as_str().unwrap_or("").to_string();
+        let class = if f48 && !SPECIFIC.contains(&class.as_str()) { "array_formula_block_corrupted_by_cell_by_cell_relocation".to_string() } else { class };
+        or.fail(&class, f["input"].clone(), f["detail"].as_str().unwrap_or("").to_string());
+    }
+}
+
+/// C12 / C13 / C15 oracle (see check_relocation_inner)
+pub fn check_relocation(before: &[SheetDump], after: &[SheetDump], op: &Op, ctx: &Ctx, scratch: &mut Scratch, or: &mut Oracle, st: &mut Stats) {
+    let mut tmp = Oracle::default();
+    check_relocation_inner(before, after, op, ctx, scratch, &mut tmp, st);
+    remap(tmp, or, relocates_multicell_array_unsafely(ctx.book, op));
+}
+/// C14 / move-and-back oracle (see check_identity_inner); `op` is the first of the two operations
+pub fn check_identity(before: &[SheetDump], after: &[SheetDump], op: &Op, ctx: &Ctx, scratch: &mut Scratch, or: &mut Oracle, st: &mut Stats) {
+    let mut tmp = Oracle::default();
+    check_identity_inner(before, after, op, ctx, scratch, &mut tmp, st);
+    let f48 = relocates_multicell_array_unsafely(ctx.book, op) || op.inverse().map(|i| {
+        // the second operation acts on the arrays where the first one put them
+        let moved = Book { arrays: ctx.book.arrays.iter().filter_map(|a| op.cell_map((a.r, a.c)).map(|(r, c)| Arr { r, c, ..a.clone() })).collect(), ..Book::empty() };
+        relocates_multicell_array_unsafely(&moved, &i)
+    }).unwrap_or(false);
+    remap(tmp, or, f48);
 }
